@@ -67,6 +67,22 @@ func (s mSpec) String() string {
 		strings.Join(ts, ""), s.order, s.npssh, s.psshPlace, s.moofExtra, s.moofPlace, s.writeOrd, s.largeMdat, s.start, hx.Hex(s.key))
 }
 
+// largeBoxesOK: an unknown box with a 16-byte header must decode, answer Size() = its length and encode to its bytes;
+// the multi-track generators put such boxes into traf and moof (asBox would abort the harness otherwise)
+func largeBoxesOK() bool {
+	raw := largeBoxBytes("lbig", []byte{1, 2, 3})
+	ok := false
+	hx.Try(func() {
+		box, err := mp4.DecodeBox(0, bytes.NewReader(raw))
+		if err != nil || box.Size() != uint64(len(raw)) {
+			return
+		}
+		var b bytes.Buffer
+		ok = box.Encode(&b) == nil && bytes.Equal(b.Bytes(), raw)
+	})
+	return ok
+}
+
 // extra boxes: index -> bytes (built fresh every time: boxes are owned by one tree)
 func mExtraTrafBox(kind, nsamples int) mp4.Box {
 	switch kind {
@@ -589,6 +605,9 @@ func runMulti(b mBuilt, key []byte, parseSenc bool) mRun {
 
 // multiCases: H lines
 func (e *env) multiCases(r *hx.Rng, n int, next func() string) {
+	if !largeBoxesOK() {
+		return // kind Z reports it
+	}
 	for i := 0; i < n; i++ {
 		s := genMulti(e, r)
 		key := s.key
@@ -642,6 +661,11 @@ func damageMulti(r *hx.Rng, raw []byte, initLen int) []byte {
 // (Fragment.Encode, as MediaSegment.Encode does) must give the clear reference fragment byte for byte; every trun of
 // every traf must address the clear bytes of its own samples; every non-protection box stays.
 func searchMulti(e *env, r *hx.Rng, n int) {
+	if !largeBoxesOK() {
+		evals++
+		fail("mp4.UnknownBox", "large-header-box-size", hx.Hex(largeBoxBytes("lbig", []byte{1, 2, 3})), "an unknown box with a 16-byte header does not come back with Size() = its length and the same bytes: the removed-byte count and every data offset behind it are off")
+		return
+	}
 	for i := 0; i < n; i++ {
 		s := genMulti(e, r)
 		for ti := range s.tracks {
